@@ -46,6 +46,8 @@ class Recorder:
         self.io_lines = spec.get('io_lines', False)
         self.line_events = 0
         self.strategy_inputs = []
+        self.reduce_spans = []
+        self.simp_origin = {}
         self.ntests = None
         self.last_obs_key = None
         self.n_points_in_rewrite = 0
